@@ -26,11 +26,26 @@ func evalWithLimit(sc *SeqCase, o V5Opts) limitVerdict {
 	lv := limitVerdict{Want: ref.Eval(sc.Doc, sc.Ops, o.Ref())}
 	var lo, hi int64
 	decided := false
-	for _, cp := range lv.Want.Copies {
+	for i, cp := range lv.Want.Copies {
 		sz := len(refenc.Compact(cp.Value, o.EscapeHTML))
 		l, h := sz, sz
 		if cp.Value.K == jr.Null {
 			l = 0
+		}
+		if sc.CopySizes != nil {
+			// sizes measured on the library's own output spelling (documents in arbitrary spelling)
+			if i >= len(sc.CopySizes) || sc.CopySizes[i][1] < 0 {
+				// size unknown (the copy is inapplicable for another reason): it decides nothing
+				if o.Limit > 0 && !decided {
+					lv.Ambiguous = true
+				}
+				decided = true
+				lv.Lo = append(lv.Lo, lo)
+				lv.Hi = append(lv.Hi, hi)
+				lv.Sizes = append(lv.Sizes, [2]int{-1, -1})
+				continue
+			}
+			l, h = sc.CopySizes[i][0], sc.CopySizes[i][1]
 		}
 		lo += int64(l)
 		hi += int64(h)
@@ -239,6 +254,25 @@ func init() {
 				}
 				if c.R.Intn(10) == 0 {
 					o.Limit = []int64{0, 1, 1000000000}[c.R.Intn(3)]
+				}
+				judgeFailure(c, sc, o)
+			}},
+			{Name: "copy-limit-any-spelling", Count: n(12000, 240000), Run: func(c *core.Ctx, idx int) {
+				// documents in arbitrary spelling; copy sizes measured on the library's own output (see C12)
+				sc := c12AnySeq(c)
+				o := V5Opts{NegIdx: true, EscapeHTML: c.R.Intn(2) == 0}
+				sizes, why := outputSpellingSizes(c, sc, o)
+				if why != "" {
+					c.Count("sizes-unavailable") // a deviation that C12 / C01 report
+					return
+				}
+				sc.CopySizes = sizes
+				lv := evalWithLimit(sc, o)
+				if len(lv.Hi) > 0 {
+					o.Limit = lv.Hi[c.R.Intn(len(lv.Hi))] + int64(c.R.Intn(3)) - 1
+					if o.Limit < 0 {
+						o.Limit = 0
+					}
 				}
 				judgeFailure(c, sc, o)
 			}},
